@@ -137,6 +137,31 @@ PROPS.update({
                  "a resolver update while a replacement exists followed by its swap, or growth"),
 })
 
+def _gme(test, rule, nontriv):
+    return dict(kind="harness", pkg="./gmesim", test=test,
+                quick=dict(checks=350, shards=4, timeout=900),
+                thorough=dict(checks=6000, shards=12, timeout=3300),
+                rule="rapid-generated histories over a real GCPMultiEndpoint and four in-memory (bufconn) gRPC servers: option sets with 1-3 named MultiEndpoints over shared endpoints "
+                     "(add/remove/rename MultiEndpoints, add/remove/reorder endpoints, change default), endpoint outages and recoveries (dialer refuses + live connections closed), RPCs (unary and stream) "
+                     "with no / known / unknown MultiEndpoint name; a recording interceptor appended in DialFunc tells which pool every RPC entered. " + rule +
+                     " Non-trivial = " + nontriv + "; distinct = FNV-1a of the canonical JSON of the case.",
+                assume=COMMON_ASSUME + ["real grpc-go 1.56.3 and real time; 'bounded time' is fixed at 10 s for routing to follow (measured: milliseconds) and 5 s for goroutines to exit (measured: 50 ms)",
+                                        "when no endpoint of a MultiEndpoint is up only membership of the entered pool is demanded (stickiness is decided deterministically by C13)",
+                                        "recovery timeout and switching delay are 0 in these histories"])
+
+
+PROPS.update({
+    "C15": _gme("TestC15", "Oracle: after every update / outage / recovery the pool entered by every context equals the top up endpoint of its (default) MultiEndpoint within the bound; after a successful update exactly one "
+                "dialed connection per mentioned endpoint is not Shutdown, every connection of an unmentioned endpoint is Shutdown, the number of monitor goroutines above the per-case baseline equals the number of open pools, "
+                "kept endpoints were not dialed again, and MultiEndpoints whose top up endpoint's pool was kept and READY route correctly immediately on return.",
+                ">=2 MultiEndpoints, an update that keeps a pool and one that removes a pool, and an outage that moves routing"),
+    "C16": _gme("TestC16", "Additionally invalid option sets (default without options, empty endpoint list on an existing / new MultiEndpoint, nil options, dial failure at the n-th dial) at construction and as updates. "
+                "Oracle: invalid options are rejected with an error; after a rejected update routing equals the unchanged model, no previously open pool is Shutdown, no pool dialed by the rejected call stays open; "
+                "no RPC panics or enters a closed pool; after Close every connection ever returned by DialFunc is Shutdown and the goroutine count returns to the pre-construction baseline; a failed construction leaves "
+                "no open connection and no goroutine.",
+                "a rejected update applied to an object with >=2 pools followed by Close, or a failed construction with a dial failure after successful dials"),
+})
+
 
 def rapid_seed(verif_seed, shard):
     return 1 + ((verif_seed * 2654435761 + shard * 40503) % (2 ** 62))
@@ -465,6 +490,6 @@ class Runner:
             "property_id": self.prop, "tier": self.tier, "seed": self.seed, "level": self.spec.get("level", "exploration"),
             "coverage": cov, "assumptions": self.spec.get("assume", COMMON_ASSUME), "wall_s": round(time.time() - self.t0, 2), "violations": nviol,
         }
-        if self.replay:
-            return  # a replay does not rewrite the evidence of the registered commands
+        if self.replay or os.environ.get("VERIF_NO_EVIDENCE"):
+            return  # replays and runs against scratch trees do not rewrite the evidence of the registered commands
         json.dump(ev, open(os.path.join(self.here, "evidence", "%s.json" % self.prop), "w"), indent=1)
